@@ -33,7 +33,6 @@ for p in $props; do
   out=$(cd /verif && VERIF_REPO=$wt ./check $p --tier quick 2>&1); rc=$?
   if [ $rc -eq 1 ]; then caught="$caught $p"; elif [ $rc -eq 2 ]; then incon="$incon $p"; fi
 done
-rm -rf /verif/replays/new
 mkdir -p /verif/seeded/$id
 cp $src/patch.diff /verif/seeded/$id/patch.diff; cp $demo /verif/seeded/$id/; cp $src/notes.txt /verif/seeded/$id/notes.txt 2>/dev/null
 python3 - "$id" "$prop" "$caught" "$incon" "$props" <<'PY'
@@ -50,3 +49,4 @@ PY
 git -C /repo worktree remove --force $wt
 h=$(python3 -c "import hashlib,sys;print(hashlib.sha1(sys.argv[1].encode()).hexdigest())" $wt)
 rm -f /verif/.build/*-${h:0:8}.test /verif/.build/go.${h:0:10}.mod /verif/.build/go.${h:0:10}.sum 2>/dev/null
+rm -rf /verif/.build/evidence-${h:0:10} /verif/.build/replays-new-${h:0:10}
